@@ -364,7 +364,7 @@ Theorem ccmap_ok : forall cc_keep npos ndecl names simple,
     filter (nonsimple simple) (cc_order temps slots) = filter (nonsimple simple) (seq 0 m) /\
     NoDup (cc_order temps slots) /\
     (forall p, In p (cc_order temps slots) <-> p < m) /\
-    (forall p, In p slots <-> p < m).
+    (forall p, In p slots <-> p < m) /\ length slots = m.
 Proof.
   intros cc_keep npos ndecl names simple W m k Hc slots.
   destruct (wf_parts _ _ _ W) as (Hpos & Hnd & Hrange & Hndb & Hgap).
@@ -383,6 +383,9 @@ Proof.
   assert (Nslots : NoDup slots).
   { rewrite Sl. apply NoDup_app'; [apply seq_NoDup | auto|].
     intros x H1 H2. apply in_seq in H1. apply Hoo in H2. lia. }
+  assert (Lslots : length slots = m).
+  { rewrite <- (seq_length m 0). apply Permutation_length, NoDup_Permutation; auto; [apply seq_NoDup|].
+    intros p. rewrite Hslots, in_seq. lia. }
   (* the guards of ccmap *)
   unfold ccmap.
   assert (G1 : Nat.ltb ndecl npos = false) by (apply Nat.ltb_ge; auto). rewrite G1.
@@ -405,7 +408,8 @@ Proof.
       apply Hoo in H. lia. }
     exists []. rewrite Sl, Eoo, app_nil_r, cc_order_nil.
     split; [reflexivity|]. split; [rewrite Ekm; reflexivity|]. split; [apply seq_NoDup|].
-    split; intros p; rewrite in_seq; lia.
+    split; [intros p; rewrite in_seq; lia|]. split; [intros p; rewrite in_seq; lia|].
+    rewrite seq_length. auto.
   - rewrite (scan_rel npos ndecl names Hpos (ndecl - k) k false) by (auto; unfold k; lia). fold oo.
     destruct (filter (fun p => negb (simple p)) oo) as [|first rest] eqn:Et.
     + (* all out-of-order keyword values are simple: no temps *)
@@ -429,7 +433,7 @@ Proof.
       { rewrite <- Et. apply isort_is.
         - apply NoDup_filter'. auto.
         - apply filter_sorted, seq_sorted.
-        - intros x. unfold nonsimple. rewrite !filter_In, in_seq, Hoo. unfold m, k in *. lia. }
+        - intros x. unfold nonsimple. rewrite !filter_In, in_seq, Hoo. unfold m, k in *. intuition lia. }
       rewrite Sorted.
       set (T := filter (fun p => negb (simple p)) (seq 0 k) ++ filter (nonsimple simple) (seq k (m - k))).
       assert (ET : T = filter (nonsimple simple) (seq 0 m)) by (rewrite Split; reflexivity).
@@ -445,13 +449,11 @@ Proof.
           apply filter_In in H. destruct H as [H1 H2]. apply Hoo in H1. rewrite Hc in H2 by lia. discriminate. }
       rewrite Args. exists T. split; [reflexivity|].
       assert (InT : forall p, In p T <-> p < m /\ simple p = false).
-      { intros p. rewrite ET. unfold nonsimple. rewrite filter_In, in_seq, negb_true_iff. lia. }
+      { intros p. rewrite ET. unfold nonsimple. rewrite filter_In, in_seq, negb_true_iff. intuition lia. }
       assert (Rest : forall p, In p (filter (fun p => negb (memb p T)) slots) <-> p < m /\ simple p = true).
       { intros p. rewrite filter_In, Hslots, negb_true_iff, memb_false, InT.
-        destruct (simple p); split; intros [A B]; split; auto; try congruence.
-        - exfalso. apply B. auto.
-        - intros [_ X]. discriminate. }
-      unfold cc_order. split; [|split; [|split; auto]].
+        destruct (simple p); intuition congruence. }
+      unfold cc_order. split; [|split; [|split; [|auto]]].
       * rewrite filter_app. rewrite ET at 1. rewrite filter_idem, <- ET.
         rewrite (filter_false (nonsimple simple) (filter _ slots)); [apply app_nil_r|].
         intros p Hp. apply Rest in Hp. unfold nonsimple. destruct Hp as [_ ->]. reflexivity.
@@ -459,7 +461,7 @@ Proof.
         -- rewrite ET. apply NoDup_filter', seq_NoDup.
         -- apply NoDup_filter'. auto.
         -- intros p Hp Hq. apply InT in Hp. apply Rest in Hq. destruct Hp, Hq. congruence.
-      * intros p. rewrite in_app_iff, InT, Rest. destruct (simple p); split; intros H; try tauto; lia.
+      * intros p. rewrite in_app_iff, InT, Rest. destruct (simple p); intuition congruence.
 Qed.
 
 (* the temp-sorting step is needed: without it (the seeded variant) the temps follow the declaration *)
@@ -474,3 +476,12 @@ Lemma ccmap_truncated_w :
   ccmap true true 1 3 [2; 1] (fun _ => false) = CMOk [0; 1; 2] [0; 2; 1] /\
   ref_slots 1 [2; 1] 3 0 = [0; 2; 1].
 Proof. repeat split; reflexivity. Qed.
+
+(* when every keyword is passed in declaration order the mapping does not look at the arguments *)
+Lemma ccmap_inorder s kp npos ndecl names simple simple' :
+  length names <= inorder_prefix ndecl npos names ->
+  ccmap s kp npos ndecl names simple = ccmap s kp npos ndecl names simple'.
+Proof.
+  intros H. unfold ccmap. apply Nat.leb_le in H. rewrite H.
+  destruct (Nat.ltb ndecl npos); auto.
+Qed.
